@@ -135,7 +135,21 @@ def refmap_part(ctx, consts, theorems_ok):
             return 'MODELFAIL ' + str(e)[:200]
 
     def run_impl_chunk(idx):
-        return lib.run_harness_resilient(H, [lines[i] for i in idx], timeout=600)
+        # like lib.run_harness_resilient, but gives up on a chunk after 3 crashes / hangs (a probe loop over a full
+        # table never ends: the harness kills itself after 8 s per sequence)
+        ls = [lines[i] for i in idx]
+        replies, start, crashes = [], 0, 0
+        while start < len(ls):
+            rc, res, err = H.run(ls[start:], timeout=600)
+            replies.extend(res[:len(ls) - start])
+            done = start + len(res)
+            if done >= len(ls): break
+            why = 'no reply within 8 s (SIGALRM): a loop in refmap.c does not terminate' if rc in (-14, 142) else ' '.join(err.strip().split('\n')[:12])[:1500]
+            replies.append('CRASH ' + why)
+            start = done + 1; crashes += 1
+            if crashes >= 3:
+                replies.extend(['SKIP'] * (len(ls) - len(replies))); break
+        return replies[:len(ls)]
 
     chunks = [order[k::12] for k in range(12)]
     with cf.ThreadPoolExecutor(max_workers=15) as ex:
@@ -160,6 +174,7 @@ def refmap_part(ctx, consts, theorems_ok):
         ctx.count(lines[i], klass=s.klass, n=1)
         nops += len(s.ops)
         impl = ires[i]
+        if impl == 'SKIP': continue
         if impl.startswith('CRASH'):
             ctx.violation('refmap-crash:%s' % s.klass, 'sanitizer report / crash in refmap.c on an operation sequence: ' + impl[:300],
                           {'sequence': lines[i] if len(lines[i]) < 200000 else lines[i][:200000], 'stderr': impl})
